@@ -33,7 +33,7 @@ var numTypes = []string{"i8", "i16", "i32", "i64", "u8", "u16", "u32", "u64", "f
 
 func genSpec(t *rapid.T, maxElems int) hist.DSpec {
 	var d hist.DSpec
-	kind := rapid.SampledFrom([]string{"num", "num", "num", "num", "num", "str", "arr", "enum", "objref", "regref", "opaque"}).Draw(t, "kind")
+	kind := rapid.SampledFrom([]string{"num", "num", "num", "num", "num", "str", "arr", "enum", "objref", "regref", "opaque", "cmp"}).Draw(t, "kind")
 	switch kind {
 	case "num":
 		d.Type = rapid.SampledFrom(numTypes).Draw(t, "type")
@@ -50,6 +50,8 @@ func genSpec(t *rapid.T, maxElems int) hist.DSpec {
 		d.Type = "opaque"
 		d.OpaqueLen = rapid.SampledFrom([]int{1, 3, 8, 17}).Draw(t, "olen")
 		d.OpaqueTag = rapid.SampledFrom([]string{"t", "tag", "opaque-tag-1", "12345678"}).Draw(t, "otag")
+	case "cmp":
+		d.Type = rapid.SampledFrom([]string{"cmp:num", "cmp:str"}).Draw(t, "cmp")
 	default:
 		d.Type = kind
 	}
@@ -74,7 +76,7 @@ func genSpec(t *rapid.T, maxElems int) hist.DSpec {
 		}
 		break
 	}
-	if rapid.IntRange(0, 9).Draw(t, "chunked") < 6 {
+	if kind != "cmp" && rapid.IntRange(0, 9).Draw(t, "chunked") < 6 { // chunked compound datasets are documented as not implemented
 		d.Chunk = make([]uint64, rank)
 		for i, e := range d.Dims {
 			opts := []uint64{1, e}
